@@ -360,7 +360,66 @@ def clause_iteration_paths(cases, ctx: Ctx):
     return out
 
 
-CLAUSES = {"envmodes": clause_envmodes, "collect_diff": clause_collect_diff, "streams": clause_streams, "iteration_paths": clause_iteration_paths}
+_KS: dict = {}
+
+
+def clause_key_sharing(cases, ctx: Ctx):
+    """Per-environment randomness through the real reset() + iteration(): all N environments start in the SAME state of a
+    single-initial-state MDP and act with a stochastic policy, so their streams can only differ through their keys.  With
+    per-environment keys some explored key separates every pair of environments; if, for EVERY explored key, two
+    environments produce the identical action stream (in the warm-up rows written by reset(), or in the rows written by
+    iteration()), they were driven by one shared key.  (A false alarm would need the stochastic policy to draw identical
+    streams under all keys: probability < 2^-40 for the sizes used.)
+    case: {algo, N, num_steps, learning_starts, keys, table}"""
+    out = []
+    for ci, c in enumerate(cases):
+        name, N, Tn, LS = c["algo"], c["N"], c["num_steps"], c["learning_starts"]
+        env = collect.build_env(c)
+        cb = CallbackList(callbacks=[])
+        sk = (name, N, Tn, LS, c["act_kind"])
+        if sk not in _KS:
+            if name in ("PPO", "A2C", "REINFORCE"):
+                algo = collect.make_algo(name, N, Tn, 0.9, 0.8)
+            elif name == "DQN":
+                algo = learnx.make_algo("DQN", N, Tn, buffer_size=64 * N, learning_starts=LS)
+            else:
+                algo = learnx.make_algo("SAC", N, Tn, buffer_size=64 * N, learning_starts=LS)
+            _KS[sk] = (eqx.filter_jit(lambda e, p, k, algo=algo: algo.reset(e, p, key=k, callback=cb)),
+                       eqx.filter_jit(lambda st, k, algo=algo: algo.iteration(st, key=k, callback=cb)))
+        reset_j, it_j = _KS[sk]
+        if name in ("PPO", "A2C", "REINFORCE"):
+            pol = learnx.make_policy("ac", env, 5)
+        elif name == "DQN":
+            pol = learnx.make_policy("q", env, 5, epsilon=1.0)
+        else:
+            pol = learnx.make_policy("sac", env, 5, width_size=8, depth=1)
+        same = {"warm-up": np.ones((N, N), bool), "iteration": np.ones((N, N), bool)}
+        for k in c["keys"]:
+            st = reset_j(env, pol, jr.key(k))
+            st1 = it_j(st, jr.key(k + 1000))
+            if name in ("PPO", "A2C", "REINFORCE"):
+                acts = {"iteration": np.asarray(st1.policy.actions).reshape(N, Tn, -1)}
+            else:
+                a = np.asarray(st1.step_state.buffer.actions).reshape(N, 64, -1)
+                acts = {"warm-up": a[:, :LS], "iteration": a[:, LS:LS + Tn]}
+            for ph, arr in acts.items():
+                for i in range(N):
+                    for j in range(N):
+                        same[ph][i, j] &= bool(np.array_equal(arr[i], arr[j]))
+            ctx.transitions += N * (Tn + LS)
+        for ph in (("iteration",) if name in ("PPO", "A2C", "REINFORCE") else ("warm-up", "iteration")):
+            pairs = [(i, j) for i in range(N) for j in range(i + 1, N) if same[ph][i, j]]
+            ctx.guard(f"keys-{ph}-separated", int(not pairs))
+            if pairs:
+                out.append((ci, f"C12/keys/environments-share-randomness/{name}/{ph}",
+                            f"{name} num_envs={N} num_steps={Tn} learning_starts={LS}: environments {pairs} started in the same state and produced the identical {ph} action "
+                            f"stream under every one of the keys {c['keys']} (stochastic policy): they are driven by one shared key, not by per-environment keys"))
+        ctx.traces += len(c["keys"])
+    return out
+
+
+CLAUSES = {"envmodes": clause_envmodes, "collect_diff": clause_collect_diff, "streams": clause_streams, "iteration_paths": clause_iteration_paths,
+           "key_sharing": clause_key_sharing}
 
 
 def explore(ctx: Ctx):
@@ -423,8 +482,17 @@ def explore(ctx: Ctx):
                 paths.append(dict(tab, N=N, num_steps=2, n_iter=10, interval=1000, lr=0.05, policy_key=pk, key=keys[0]))
     ctx.run_parallel("iteration_paths", paths, workers=6, group_key=lambda c: c["N"], threads=2)
     ctx.notes["iteration_path_cases"] = len(paths)
+    # per-environment keys through the real reset() (warm-up) and iteration(), all algorithms
+    ks = []
+    one_init = dict(T=[[1, 0], [0, 1], [2, 2]], term=[False, False, False], init=[True, False, False], S=3, A=2, obs_kind="onehot")
+    for algo in ("PPO", "A2C", "REINFORCE", "DQN", "SAC"):
+        for N in ((2, 3) if thorough else (2,)):
+            ks.append(dict(one_init, algo=algo, act_kind="box" if algo == "SAC" else "discrete", N=N, num_steps=8, learning_starts=8,
+                           keys=[int(k) % 100000 for k in key_ints(ctx.seed, 6 if thorough else 5, salt=7)]))
+    ctx.run_parallel("key_sharing", ks, workers=5, group_key=lambda c: c["algo"], threads=2)
     # non-trivial (measured): collections in which the parallel environments really started in different states, and
     # stream cases whose MDP ends episodes by termination as well as by the time limit
     ctx.nontrivial |= {("diff", i) for i in range(ctx.guards.get("collect-envs-start-differently", 0))}
     ctx.nontrivial |= {("stream", i) for i, c in enumerate(streams) if any(c["term"]) and c.get("tl")}
-    ctx.require("collect-envs-start-differently", "after_reset", "trunc_only", "term_only", "paths-online-target-greedy-actions-differ")
+    ctx.require("collect-envs-start-differently", "after_reset", "trunc_only", "term_only", "paths-online-target-greedy-actions-differ",
+                "keys-warm-up-separated", "keys-iteration-separated")
